@@ -95,12 +95,20 @@ def gen_enum_case(g, cid, opts=None):
             f.k_owned = g.mark()
             f.k_ref = g.mark() if (g.chance(0.5) and not (opts or {}).get("uniform")) else f.k_owned
             f.ref_form = "deref" if (f.ty != "String" and g.chance(0.5)) else "clone"
-        # S-only payload fields (ghost with default), kept last so that positions coincide
-        if v.tshape != "unit" and v.fields and g.chance(0.25) and v.hint is None:
-            f = PF(f"gx{g.mark()}" if shape == "named" else len(v.fields), r.choice(LEAVES))
+        # S-only payload fields (ghost with default). Where the counterpart is addressed by name (named variant, or tuple
+        # variant with `as {}`) the ghost may sit anywhere; in positional layouts it is kept last so that positions coincide
+        if v.tshape != "unit" and v.fields and g.chance(0.3) and v.hint in (None, "{}"):
+            by_name = (shape == "named" and v.tshape == "named") or v.hint == "{}"
+            pos = r.randint(0, len(v.fields)) if by_name else len(v.fields)
+            f = PF(f"gx{g.mark()}" if shape == "named" else pos, r.choice(LEAVES))
             f.desig = "ghost"
             f.ghost_k = g.mark()
-            v.fields.append(f)
+            v.fields.insert(pos, f)
+            if shape != "named":
+                for i2, f2 in enumerate(v.fields):
+                    if f2.tname == f2.name and f2.desig != "ghost":
+                        f2.tname = i2
+                    f2.name = i2
         # counterpart-only payload fields
         if v.tshape in ("tuple", "named") and v.shape != "unit" and g.chance(0.25) and v.hint is None:
             n_mapped = len([f for f in v.fields if f.desig != "ghost"])
@@ -152,21 +160,24 @@ def divert(mode, k, fallible, target_expr):
     return f"{{ crate::rt::probe_mark({k}); {target_expr} }}"
 
 
-def payload_attrs(v, f):
+def payload_attrs(v, f, fallible=False, flip=0):
+    """flip: bit 0 -> owned instruction uses its try_ name, bit 1 -> by-ref instruction does (fallible twin only)"""
     out = []
     if f.desig == "ghost":
         out.append(Instr("ghost", "ghost", container=None, action=const_of(f.ty, f.ghost_k), braced=True))
         return out
     member = f.tname if f.desig == "rename" or f.tname != f.name else None
     # owned kinds
+    n_owned = "try_map_owned" if (fallible and flip & 1) else "map_owned"
+    n_ref = "try_map_ref" if (fallible and flip & 2) else "map_ref"
     if f.desig == "expr":
-        out.append(Instr("map_owned", "map", container=None, member=member, action=rnd_expr(f.ty, f.k_owned, "~"), braced=False))
+        out.append(Instr(n_owned, "map", container=None, member=member, action=rnd_expr(f.ty, f.k_owned, "~"), braced=False))
     elif member is not None:
-        out.append(Instr("map_owned", "map", container=None, member=member, action=None))
+        out.append(Instr(n_owned, "map", container=None, member=member, action=None))
     # by-ref kinds: bindings are references
     base = "~.clone()" if f.ref_form == "clone" else "*~"
     e = rnd_expr(f.ty, f.k_ref, f"({base})") if f.desig == "expr" else base
-    out.append(Instr("map_ref", "map", container=None, member=member, action=e, braced=False))
+    out.append(Instr(n_ref, "map", container=None, member=member, action=e, braced=False))
     return out
 
 
@@ -252,7 +263,7 @@ def render_enum_module(ec, g, fallible, draws):
                 attrs.append(Instr("ghosts", "ghosts", container=None, entries=[dict(path=None, ident=n, action=const_of(ty, k)) for n, ty, k in v.t_only]))
         fields = []
         for f in v.fields:
-            fa = payload_attrs(v, f) if v.ghost is None else []
+            fa = payload_attrs(v, f, fallible, (ec.cid + len(fields) + len(it.variants)) % 4) if v.ghost is None else []
             fields.append(Field(f.name if v.shape == "named" else None, f.ty, fa))
         it.variants.append(Variant(v.name, v.shape, fields, attrs))
     derive_src = it.render(derive="#[derive(Clone, Debug, PartialEq, o2o::o2o)]")
